@@ -39,7 +39,7 @@ AST (JSON lists; names are small naturals chosen by the program):
          | ["f", b, n]   (futadd / measfut only) the index is itself an array Future:
                          arr_a.get_future_index(arr_b.get_future_index(n))   -> SFutAddX / SMeasFutX
   x, y = ["int", z] | ["fut", a, ix] | ["reg", r] | ["loop", v]
-  src  = ["int", z] | ["fut", a, ix] | ["loop", v]
+  src  = ["int", z] | ["fut", a, ix] | ["loop", v] | ["reg", r]     (the RegFuture itself is passed to .add)
 Array names are the addresses the builder will hand out (k-th allocated array = k);
 the interpreter asserts this, the Coq lowering checks it.
 """
@@ -121,10 +121,12 @@ class Interp:
             return s[1]
         if s[0] == "fut":
             return self.future(s[1], s[2])
+        if s[0] == "reg":
+            return self.reg[s[1]]
         if s[0] == "loop":
             kind = self.loopv[s[1]]
             if kind[0] == "rf":
-                return kind[1].reg
+                return kind[1]          # the RegFuture handle, as an application passes it
             if kind[0] in ("reg", "both"):
                 return kind[1]
         raise IllFormed(s)
@@ -323,8 +325,11 @@ class Interp:
                 snap["arrays"][a] = _plain(arr[:])
         for (a, i), f in self.fut.items():
             snap["futs"][f"{a},{i}"] = _val(f)
-        for r, rf in self.reg.items():
-            snap["regs"][r] = _val(rf)
+        if not getattr(self, "late_reads", False):
+            # late_reads: an application that looks at its register outcomes only at the end
+            # (every read resolves the handle, so the reading schedule is part of the program)
+            for r, rf in self.reg.items():
+                snap["regs"][r] = _val(rf)
         if self.pipe is not None:
             snap["ctrl_arrays"] = {a: _plain(v) for a, v in self.pipe.arrays().items()}
             snap["ctrl_M"] = ctrl_m_registers(self.pipe)
@@ -409,7 +414,7 @@ class HangError(Exception):
     pass
 
 
-def run_program(repo, prog, script, max_qubits=5, record_active=False, timeout_s=10):
+def run_program(repo, prog, script, max_qubits=5, record_active=False, timeout_s=10, late_reads=False):
     """Run on a fresh in-process pipeline.  Returns the observation dict:
        status 'ok' | 'error'; error -> (top-level statement index, exception class)."""
     from sdk_pipeline import Pipeline
@@ -423,7 +428,8 @@ def run_program(repo, prog, script, max_qubits=5, record_active=False, timeout_s
         actives.append(active_regs(conn))
 
     it = Interp(conn, pipe, on_stmt=on_stmt if record_active else None)
-    obs = dict(status="ok")
+    it.late_reads = late_reads
+    obs = dict(status="ok", late_reads=late_reads)
     import signal
 
     def on_alarm(signum, frame):
@@ -443,6 +449,9 @@ def run_program(repo, prog, script, max_qubits=5, record_active=False, timeout_s
         signal.setitimer(signal.ITIMER_REAL, 0)
         signal.signal(signal.SIGALRM, old)
     obs["protos"] = it.protos
+    if late_reads and it.flushes and obs["status"] == "ok":
+        # register outcomes of ALL blocks are read now, after the last flush
+        it.flushes[-1]["regs"] = {r: _val(rf) for r, rf in it.reg.items()}
     obs["flushes"] = it.flushes
     obs["trace"] = canon_trace(pipe.gate_trace())
     obs["script_left"] = len(pipe.meas_script)
@@ -566,6 +575,8 @@ class Gen:
         ivs = self.index_vars()
         if r < 0.55 and ivs:
             return ["loop", self.rng.choice(ivs)["v"]]
+        if r < 0.75 and (self.regs or self.uregs):
+            return ["reg", self.rng.choice(self.regs + self.uregs)]
         return ["int", self.small()]
 
     def pick_nested(self, must_defined):
@@ -986,6 +997,42 @@ def gen_sequence(rng, n_ops, flush_every, epr=True, max_depth=4):
     return renumber_arrays(prog)
 
 
+def gen_handover(rng):
+    """register outcomes handed from one subroutine to later ones: measurements into registers in
+    every block, later blocks use outcomes of earlier blocks (and their own) as condition and add
+    operands.  -> (prog, script)"""
+    prog = [["newarr", 0, 3, [0, 0, 0]], ["newq", 0]]
+    regs, n_meas = [], 0
+    nblocks = rng.randint(2, 4)
+    for b in range(nblocks):
+        own = []
+        for _ in range(rng.randint(1, 3)):
+            if rng.random() < 0.4:
+                prog.append(["gate", rng.choice(GATES1), 0])
+            r = len(regs) + len(own)
+            prog.append(["measreg", 0, 1, r])
+            own.append(r)
+            n_meas += 1
+            if rng.random() < 0.3:
+                prog.append(["measfut", 0, 1, 0, ["c", 2]])
+                n_meas += 1
+        pool = regs + own
+        for _ in range(rng.randint(1, 3)):
+            x = ["reg", rng.choice(pool)]
+            k = rng.random()
+            if k < 0.45:
+                c = rng.choice(CONDS)
+                y = None if c in ("ez", "nz") else rng.choice([["int", rng.randint(0, 1)], ["reg", rng.choice(pool)]])
+                prog.append(["if", c, rng.randint(0, 1), x, y, [["futadd", 0, ["c", 0], ["int", rng.randint(1, 5)], None]]])
+            elif k < 0.8:
+                prog.append(["futadd", 0, ["c", 1], x, rng.choice([None, None, 3])])
+            else:
+                prog.append(["regadd", rng.choice(own), x, None])
+        regs += own
+        prog.append(["flush"])
+    return prog, [rng.randint(0, 1) for _ in range(n_meas)]
+
+
 def nest(k, inner, kinds, rng):
     """k open operations around `inner` (C14: agreement on failure when the nesting is too deep)"""
     s = inner
@@ -1104,6 +1151,41 @@ def allowed_cuts(stmts):
     return ok
 
 
+def reg_targets(s, acc):
+    """register futures that s adds to (rf.add(..)) anywhere inside"""
+    if s[0] == "regadd":
+        acc.add(s[1])
+    for b in bodies(s):
+        for t in b:
+            reg_targets(t, acc)
+
+
+def stale_cuts(stmts):
+    """positions i (flush after statement i) that DO separate the measurement of a register
+    outcome from a later use of it as an operand (condition, add operand), and from no later
+    rf.add(..) on it: the later subroutine must see the value the earlier one computed, although
+    the M registers are handed out afresh (outside Sdk.Lower: what is compiled depends on an
+    earlier run; covered by the behavioural oracle only)"""
+    info, targets, news = [], [], []
+    for s in stmts:
+        d, u, t = set(), set(), set()
+        reg_defs_uses(s, d, u)
+        reg_targets(s, t)
+        info.append(({x for x in d if not isinstance(x, tuple)}, {x for x in u if not isinstance(x, tuple)} - t))
+        # rf.add on a new_register future is returned to the host only by the block that claimed it
+        targets.append(t | {x for x in u if isinstance(x, tuple)})
+        news.append({x for x in d if isinstance(x, tuple)})
+    ok = []
+    for i in range(len(stmts) - 1):
+        defined = set().union(*[d for d, _ in info[: i + 1]])
+        used_later = set().union(*[u for _, u in info[i + 1:]])
+        added_later = set().union(*targets[i + 1:])
+        new_defined = set().union(*news[: i + 1])
+        if (defined & used_later) and not ((defined | new_defined) & added_later):
+            ok.append(i)
+    return ok
+
+
 def strip_flushes(prog):
     return [s for s in prog if s[0] != "flush"]
 
@@ -1199,6 +1281,8 @@ def coq_src(x):
         return f"(AInt {cz(x[1])})"
     if x[0] == "fut":
         return f"(AFut {x[1]} {coq_ix(x[2])})"
+    if x[0] == "reg":
+        return f"(AReg {x[1]})"
     return f"(ALoop {x[1]})"
 
 
